@@ -35,6 +35,15 @@ def observe(case):
     if registered:
         # the names are registered before parsing - in one or two calls, possibly after the grammar has
         # already been looked at (grammar() / grammar_info() are public and load it)
+        if mode == "after_failed_parse":
+            # the route the library's own error message suggests: parse, be told to load the model, load it, parse again
+            import warnings as _w
+            try:
+                with _w.catch_warnings():
+                    _w.simplefilter("ignore")
+                    p.parse()
+            except Exception:  # noqa: BLE001
+                pass
         if mode == "after_grammar":
             p.grammar()
         elif mode == "after_grammar_info":
@@ -131,7 +140,7 @@ def make_cases(rng, deep):
         listed = models + reg
         for w in reg + [rng.choice(models)]:
             c = case(w, listed=listed, params=rng.choice([[], ["0.5"], ["abc"]]), split_registration=bool(i % 2),
-                     reg_mode=["normal", "after_grammar", "after_grammar_info", "parse_twice"][len(cases) % 4])
+                     reg_mode=["normal", "after_grammar", "after_grammar_info", "parse_twice", "after_failed_parse"][len(cases) % 5])
             c["context"] = "registered names " + ",".join(reg) + " (" + c["reg_mode"] + ")"
         # a published name that has a registered prefix / extension must still be itself
         for w in reg:
